@@ -145,6 +145,9 @@ def structure_independent(chk, fx, a, config, engh, H, engr, R, selfv, hx=None):
         if total is not None and start_ok and engr.ent(s, c_eq(sub[2].lin + 6, total)):
             okf += 1
         else:
+            import os
+            if os.environ.get("VERIF_DEBUG"):
+                print("FRAMING", total, start_ok, sub, before[:3])
             okf = -10 ** 6
     # reveal accepts every original length that fits (what hide produces always fits)
     over = []
